@@ -214,6 +214,7 @@ func (w *World) process(nd *Node) {
 	}
 	w.topUp(nd)
 	handled := false
+	nd.curEvent = nil
 	w.guard(nd, "tick", func() { handled = nd.el.Tick(w.ctx) })
 	if nd.crashed {
 		return
@@ -233,7 +234,6 @@ func (w *World) afterStep(nd *Node) {
 	w.logf("STEP %s %s -> v=%d hqc=%s@%d htc=%d lock=%s cm=%s lv=%d", nd, w.evSym(nd.curEvent), nd.states.View(),
 		w.reg.sym(nd.states.HighQC().BlockHash()), nd.states.HighQC().View(), nd.states.HighTC().View(),
 		w.lockSym(nd), w.reg.sym(nd.states.CommittedBlock().Hash()), nd.voter.VerifLastVotedView())
-	nd.curEvent = nil
 	for _, f := range w.hooks.afterStep {
 		f(nd)
 	}
